@@ -111,6 +111,17 @@ def gen(kind, box, gens, other=None):
         if kind == 'M':                       # single module
             py4hw.VerilogGenerator(box).getVerilog()
             return None
+        if kind in ('m', 'c', 'p'):           # the SAME generator object asked for something rooted elsewhere
+            g = gens.setdefault('g', py4hw.VerilogGenerator(box))
+            subs = [c for c in box.children.values() if not g.isInlinable(c)]
+            sub = subs[0] if subs else box
+            if kind == 'm':
+                g.getVerilog()
+            elif kind == 'c':
+                g.getVerilog(sub)
+            else:
+                g.getVerilogForHierarchy(obj=sub, noInstanceNumberInTopEntity=False)
+            return None
         if kind == 'O':                       # another circuit in between
             s2 = py4hw.HWSystem()
             b2, i2, o2, e2 = wrap_in_box(d_struct, 'seq')(s2)
@@ -161,6 +172,13 @@ def equivalent_texts(p, label, t1, t2, top=None):
     except VlogUnsupported as e:
         p.inconclusive(label, 'front end: %s' % e)
         return
+    bad2 = [(n, dt) for n, ok_, dt in d2.obligations if not ok_]
+    bad1 = [(n, dt) for n, ok_, dt in d1.obligations if not ok_]
+    if not d1.fatal and not bad1 and (bad2 or (d2.fatal and bad2)):
+        # the reference is a closed design, the later text is not: it does not describe the same design
+        p.structural('%s: the later text resolves and elaborates like the reference' % label, False,
+                     detail={'failed': [n for n, _ in bad2][:4], 'fatal': d2.fatal})
+        return
     if d1.fatal or d2.fatal:
         p.inconclusive(label, 'front end: %s' % (d1.fatal or d2.fatal))
         return
@@ -202,6 +220,10 @@ def seq_task(p, cfg, rec):
     before, vars_ = step_terms(s, ins)
     texts = []
     gens = {}
+    try:
+        texts.append((-1, 'reference: fresh generator before the sequence', gen('H', box, {})))
+    except Exception as e:
+        p.structural('reference generation completes', False, detail={'exception': repr(e)})
     for k, kind in enumerate(seq):
         if kind.isdigit():
             with quiet():
@@ -280,7 +302,8 @@ def ancestor_task(p, cfg, rec):
 
 def tasks_for(tier):
     quick = tier == 'quick'
-    seqs = [['H', 'H'], ['h', 'h'], ['H', 'M', 'H'], ['H', 'O', 'H'], ['S', 'H'], ['H', '2', 'H'], ['M', 'H', 'h']]
+    seqs = [['H', 'H'], ['h', 'h'], ['H', 'M', 'H'], ['H', 'O', 'H'], ['S', 'H'], ['H', '2', 'H'], ['M', 'H', 'h'],
+            ['c', 'h'], ['p', 'h'], ['m', 'h'], ['h', 'p', 'h'], ['h', 'c', 'S']]
     if not quick:
         seqs += [['h', 'O', 'h'], ['H', '1', 'h', '3', 'H'], ['S', 'S'], ['O', 'H', 'O', 'h'], ['M', 'M', 'H'], ['H', 'S', 'h']]
     t = []
@@ -296,7 +319,7 @@ def main(argv=None):
     return common.run_check(
         PROP, 'translation_validation', tasks_for(args.tier), args, design_ref='DESIGN.md section 3 (C19)',
         technique='SMT equivalence (z3 QF_BV): terms of one symbolic clock step before vs after generation; every returned text elaborated (E2) and proved equivalent to the first text for the circuit',
-        assumptions=['request kinds: H whole hierarchy with a fresh generator, h same generator object, S caller-supplied createdStructures, M single module, O generation for another circuit, digits = clk(n) in between',
+        assumptions=['request kinds: H whole hierarchy with a fresh generator, h same generator object, S caller-supplied createdStructures, M single module (fresh generator), m/c/p the same generator object asked for the single top module / a child module / the hierarchy of a child, O generation for another circuit, digits = clk(n) in between; every text is compared with a reference generated by a fresh generator before the sequence',
                      'two-state Verilog semantics (see C01)'],
         bounds={'designs': sorted(DESIGNS), 'sequences': 'up to 3 generation requests (5 items) per sequence', 'sub-blocks': '3 sub-blocks x 4 ancestors'},
         trusted_base=['z3', 'symx', 'vlog front end'])
